@@ -154,7 +154,9 @@ Names == [i \in 1..Len(EnumNames) |-> A(EnumNames[i], EnumNames[i])] \o AliasTab
 
 Cases    == {"asis", "lower", "upper", "title"}
 Blanks   == {"none", "lead", "trail", "both"}
-Prefixes == {"1", "-2.5", ".5", "3."}
+\* the number grammar of a value string: an optional minus sign, then digits | digits "." | digits "." digits | "." digits
+\* - every form with and without the sign, plus leading / trailing zeros
+Prefixes == {"1", "-1", "2.5", "-2.5", ".5", "-.5", "3.", "-3.", "007.250", "-0"}
 Entries  == {"parse_unit", "set_pref", "value_with_prefix", "value_preferred_name", "config_file_preferred",
              "config_file_step_units"}
 
@@ -162,7 +164,7 @@ VARIABLES entry, idx, case, blank, prefix, slot, outcome
 vars == <<entry, idx, case, blank, prefix, slot, outcome>>
 
 Init == /\ entry \in Entries /\ idx \in 1..Len(Names) /\ case \in Cases /\ blank \in Blanks
-        /\ prefix \in (IF entry = "value_with_prefix" THEN Prefixes ELSE {"1"})
+        /\ prefix \in (IF entry \in {"value_with_prefix", "value_preferred_name"} THEN Prefixes ELSE {"1"})
         /\ slot = "Initial" /\ outcome = "pending"
 
 \* what the entry point must do with the name
